@@ -427,7 +427,8 @@ fn check_main(prop: &str, tier: &str) -> i32 {
         hang_cpu_s: p.hang_cpu_s,
         tag: "main".into(),
     });
-    let mut audit = if p.audit_runs > 0 { Some(run_audit(prop, batch_seed, p.audit_runs, p.hang_cpu_s)) } else { None };
+    let stopped_early = main.stats.counters.contains_key("harness.batch_stopped_early_after_repeated_crashes_or_hangs");
+    let mut audit = if p.audit_runs > 0 && !stopped_early { Some(run_audit(prop, batch_seed, p.audit_runs, p.hang_cpu_s)) } else { None };
     let mut extra_cov = J::obj();
     let mut extra_viol = Vec::new();
     let mut audit_viol: Vec<(String, J, u64)> = Vec::new();
